@@ -5,7 +5,7 @@
    Mul / Modulo: the records of Props/Arith.v that transcribe the sources AS THEY ARE at the pinned
    commit (mk_mod_prefix); switch to mk_mod when fixes/modulo_sound.patch is applied to /repo. *)
 Require Import Selen.Model.Prelude Selen.Model.Dom Selen.Model.Views Selen.Model.PropDefs.
-Require Import Selen.Model.Props.Basic Selen.Model.Props.LinInt Selen.Model.Props.Arith Selen.Model.Api Selen.Model.Lower.
+Require Import Selen.Model.Props.Basic Selen.Model.Props.LinInt Selen.Model.Props.Arith Selen.Model.Props.Neq Selen.Model.Api Selen.Model.Lower.
 
 Definition denote (p : pdesc) : prop :=
   match p with
@@ -14,7 +14,7 @@ Definition denote (p : pdesc) : prop :=
   | PMod x y s => mk_mod_prefix x y s
   | PLeq x y => mk_leq x y
   | PEq x y => mk_eq x y
-  | PNeq x y => mk_neq_noop x y
+  | PNeq x y => mk_neq x y
   | PLinEq cs xs k => mk_lin_eq cs xs k
   | PLinLe cs xs k => mk_lin_le cs xs k
   | PLinNe cs xs k => mk_lin_ne cs xs k
